@@ -715,6 +715,14 @@ mod os {
             set_inheritable(&exec_fail_pipe.1, false)?;
             {
                 let child_ends = self.setup_streams(config.stdin, config.stdout, config.stderr)?;
+                if let Some(env) = config.env.as_deref() {
+                    // every entry must be free of NUL, also one that a later
+                    // entry of the same name is about to replace
+                    for (name, value) in env {
+                        posix::os_to_cstring(name)?;
+                        posix::os_to_cstring(value)?;
+                    }
+                }
                 let child_env = config.env.as_deref().map(format_env);
                 let cmd_to_exec = config.executable.as_ref().unwrap_or(&argv[0]);
                 let just_exec = posix::prep_exec(cmd_to_exec, &argv, child_env.as_deref())?;
